@@ -238,7 +238,11 @@ pub struct Gen {
     welcome_decided: BTreeSet<EvRef>,
     /// outsiders already invited once (guard `no_reinvite`)
     invited: BTreeSet<usize>,
-    pub hostile_hook: Option<fn(&mut Gen, &World) -> Option<Step>>,
+    /// let clients whose group is inactive keep attempting to send (C03)
+    pub ex_members_send: bool,
+    /// hand already processed invitations over again (same wrapper id) now and then (C16)
+    pub reprocess_welcomes: bool,
+    pub hostile_hook: Option<fn(&mut Gen, &mut World) -> Option<Step>>,
 }
 
 impl Gen {
@@ -256,6 +260,8 @@ impl Gen {
             welcome_seen: BTreeSet::new(),
             welcome_decided: BTreeSet::new(),
             invited: BTreeSet::new(),
+            ex_members_send: false,
+            reprocess_welcomes: false,
             hostile_hook: None,
         }
     }
@@ -264,7 +270,7 @@ impl Gen {
         &mut self.sched
     }
 
-    fn mk(&mut self, w: &mut World, node: usize, dt: u32, op: Op) -> Step {
+    pub fn mk(&mut self, w: &mut World, node: usize, dt: u32, op: Op) -> Step {
         Step { id: w.step_id(), node, dt, op }
     }
 
@@ -287,7 +293,7 @@ impl Gen {
             return false;
         }
         if ev.kind == EvKind::Hostile {
-            return true;
+            return w.gview(node, ev.g).is_some();
         }
         // the node must hold the group (joined at some point)
         let Some(gv) = w.gview(node, ev.g) else { return false };
@@ -418,6 +424,15 @@ impl Gen {
             return None;
         }
         // welcomes first: a recipient that has an unprocessed released welcome handles it soon
+        if self.reprocess_welcomes && !self.welcome_seen.is_empty() && self.sched.chance(1, 12) {
+            let seen: Vec<EvRef> = self.welcome_seen.iter().copied().collect();
+            let r = seen[self.sched.below(seen.len() as u64) as usize];
+            if let Some(pw) = w.w_index.get(&r).map(|i| w.welcomes[*i].clone()) {
+                let s = self.mk(w, pw.recipient, 0, Op::ProcessWelcome { w: r });
+                self.emitted += 1;
+                return Some(s);
+            }
+        }
         for i in 0..w.welcomes.len() {
             let pw = w.welcomes[i].clone();
             if !self.welcome_seen.contains(&pw.origin) && self.welcome_released(w, &pw) && self.sched.chance(2, 3) {
@@ -458,7 +473,8 @@ impl Gen {
             }
             let step = match k {
                 0 => {
-                    if !w.is_active_member(node, g) {
+                    let ex = self.ex_members_send && w.gview(node, g).is_some() && self.sched.chance(1, 3);
+                    if !w.is_active_member(node, g) && !ex {
                         continue;
                     }
                     self.msg_tag += 1;
